@@ -52,6 +52,9 @@ def correspondence(ctx, model_ok=True):
     extra += [("c07:" + n, s_, {}) for n, s_, _ in c07.SCENARIOS] + [("c08:" + n, s_, {}) for n, s_, _, _ in c08.SCENARIOS]
     extra += [("c09:" + n, s_, {}) for n, s_, _, _ in c09.SCENARIOS] + [("c18:" + n, s_, {}) for n, s_, _ in c18.SCENARIOS]
     extra += probes_gc.all_probes()
+    asrc, amods = c08.aftermath_program()
+    extra += [("c08:aftermath", asrc, amods)]
+    extra += [("c08:aftermath:%d" % k, "%s try { %s } catch e { print(type(e)); } %s\n" % t, amods) for k, t in enumerate(c08.AFTERMATH)]
     allp = progs.corpus_dir("C10") + extra + [(n, s, m) for n, s, m, _ in gen] + scripts
     results = {}
     for profile, feats in configs(ctx.thorough):
